@@ -40,6 +40,10 @@ var c14OrderPairs = []string{"vdel-vadd", "vadd-vdel", "kvset-kvset", "kvset-kvd
 
 const c14OrderWait = 250 * time.Millisecond
 
+// c14Hang: a step that has not happened after this long is reported as a hang; long enough that a heavily loaded
+// machine cannot produce it by slowness alone
+const c14Hang = 2 * time.Minute
+
 func c14OrderAllCells() []c14OrderCell {
 	var out []c14OrderCell
 	for _, admin := range []string{"snapshot", "rewrite"} {
@@ -328,14 +332,14 @@ func c14OrderRun(c c14OrderCell) (msg string, labels []string) {
 				}
 			case err := <-adminDone:
 				return fmt.Sprintf("harness: %s finished before point %d: %v", c.Admin, pos, err), labels
-			case <-time.After(20 * time.Second):
-				return fmt.Sprintf("%s did not reach %s within 20 s (client state %d)", c.Admin, points[pos-1], state), labels
+			case <-time.After(c14Hang):
+				return fmt.Sprintf("%s did not reach %s within 2 min (client state %d)", c.Admin, points[pos-1], state), labels
 			}
 		} else if pos == n+1 {
 			select {
 			case adminErr = <-adminDone:
-			case <-time.After(20 * time.Second):
-				return fmt.Sprintf("%s did not finish within 20 s (client state %d)", c.Admin, state), labels
+			case <-time.After(c14Hang):
+				return fmt.Sprintf("%s did not finish within 2 min (client state %d)", c.Admin, state), labels
 			}
 		}
 		client(pos)
@@ -346,7 +350,7 @@ func c14OrderRun(c c14OrderCell) (msg string, labels []string) {
 		client(n + 1)
 	}
 	if state != 4 {
-		return fmt.Sprintf("the client's writes did not return within 20 s after %s finished (state %d)", c.Admin, state), labels
+		return fmt.Sprintf("the client's writes did not return within 2 min after %s finished (state %d)", c.Admin, state), labels
 	}
 	if adminErr != nil {
 		return fmt.Sprintf("%s returned an error: %v", c.Admin, adminErr), labels
@@ -578,8 +582,8 @@ func c14OverlapRun(c c14OverlapCell) (msg string, labels []string) {
 			}
 		case err := <-aDone:
 			return fmt.Sprintf("harness: %s finished before point %d: %v", c.A, pos, err), labels
-		case <-time.After(20 * time.Second):
-			return fmt.Sprintf("%s did not reach %s within 20 s", c.A, points[pos-1]), labels
+		case <-time.After(c14Hang):
+			return fmt.Sprintf("%s did not reach %s within 2 min", c.A, points[pos-1]), labels
 		}
 	}
 	type pend struct {
@@ -644,14 +648,14 @@ func c14OverlapRun(c c14OverlapCell) (msg string, labels []string) {
 	var aErr error
 	select {
 	case aErr = <-aDone:
-	case <-time.After(20 * time.Second):
-		return fmt.Sprintf("%s did not finish within 20 s after being released", c.A), labels
+	case <-time.After(c14Hang):
+		return fmt.Sprintf("%s did not finish within 2 min after being released", c.A), labels
 	}
 	if !bReturned {
 		select {
 		case bErr = <-bDone:
-		case <-time.After(20 * time.Second):
-			return fmt.Sprintf("the second request (%s) did not return within 20 s after %s finished", c.B, c.A), labels
+		case <-time.After(c14Hang):
+			return fmt.Sprintf("the second request (%s) did not return within 2 min after %s finished", c.B, c.A), labels
 		}
 	}
 	for _, p := range writes {
@@ -659,8 +663,8 @@ func c14OverlapRun(c c14OverlapCell) (msg string, labels []string) {
 			select {
 			case p.err = <-p.ch:
 				p.done = true
-			case <-time.After(20 * time.Second):
-				return fmt.Sprintf("client write %s did not return within 20 s after both admin operations finished", p.name), labels
+			case <-time.After(c14Hang):
+				return fmt.Sprintf("client write %s did not return within 2 min after both admin operations finished", p.name), labels
 			}
 		}
 		if p.err != nil {
